@@ -228,6 +228,11 @@ def families(tier='quick', seed=0):
     add('nested', 'n:[{f},{f}]', {'idents': {'A': M((K('n'), L(M((K('f'), S('a'))), M((K('f'), S('b'))))))}, 'cond': ('id', 'A')})
     add('nested', 'seq n.f|n.g', {'idents': {'A': ('seq', [M((K('n'), M((K('f'), S('a'))))), M((K('n'), M((K('g'), S('b')))))])}, 'cond': ('id', 'A')})
     add('nested', 'n.f,n.f2 in one map', {'idents': {'A': M((K('n'), M((K('f'), S('a')))), (K('g'), S('c')))}, 'cond': ('id', 'A')})
+    # a negated key inside a block, underneath a negation (false and missing are told apart)
+    add('nested', 'not {n: {not(f)}}', {'idents': {'A': M((K('n'), M((K('f', 'not'), S('a')))))}, 'cond': ('not', ('id', 'A'))})
+    # a block that holds nothing but another block (depth 3)
+    add('nested', 'n.m.f', {'idents': {'A': M((K('n'), M((K('m'), M((K('f'), S('a')))))))}, 'cond': ('id', 'A')})
+    add('nested', 'not n.m.f', {'idents': {'A': M((K('n'), M((K('m'), M((K('f'), S('a')))))))}, 'cond': ('not', ('id', 'A'))})
     # three conjuncts make an and-*group*, whose same-field nested blocks shake merges into nested(n, all(or[..]))
     nA, nB, nH = M((K('n'), M((K('f'), S('a'))))), M((K('n'), M((K('g'), S('b'))))), M((K('h'), S('c')))
     and3 = ('and', ('and', ('id', 'A'), ('id', 'B')), ('id', 'C'))
@@ -315,7 +320,9 @@ def families(tier='quick', seed=0):
     Z = M((K('f'), S('*')))
     for nm, c in (('int(f)>1', ('cmp', '>', ('int', 'f'), ('ci', 1))), ('1<int(f)', ('cmp', '<', ('ci', 1), ('int', 'f'))),
                   ('int(f)==int(g)', ('cmp', '==', ('int', 'f'), ('int', 'g'))), ('flt(f)>=1.5', ('cmp', '>=', ('flt', 'f'), ('cf', 1.5))),
-                  ('flt(f)<flt(g)', ('cmp', '<', ('flt', 'f'), ('flt', 'g'))), ('str(f)==str(g)', ('cmp', '==', ('str', 'f'), ('str', 'g')))):
+                  ('flt(f)<flt(g)', ('cmp', '<', ('flt', 'f'), ('flt', 'g'))), ('str(f)==str(g)', ('cmp', '==', ('str', 'f'), ('str', 'g'))),
+                  # the constant written on the left
+                  ('1.5>=flt(f)', ('cmp', '>=', ('cf', 1.5), ('flt', 'f'))), ('2<=int(f)', ('cmp', '<=', ('ci', 2), ('int', 'f')))):
         add('cast-cond', nm, {'idents': {'Z': Z}, 'cond': c})
         add('cast-cond', 'Z and ' + nm, {'idents': {'Z': Z}, 'cond': ('and', ('id', 'Z'), c)})
         add('cast-cond', 'not ' + nm, {'idents': {'Z': Z}, 'cond': ('not', c)})
@@ -389,7 +396,7 @@ MUST = {'single/"a\'', 'single/i\'a"', 'single/"',
         'quant-short/of2:a-only', 'quant-short/of0:a-only', 'quant-short/all:>1,<5', 'quant-ident/of(seq,2)', 'quant-ident/all(list)',
         'quant-ident/of(list,2)', 'quant-ident/not of(map,1)', 'cast-cond/int(f)>1', 'cast-cond/str(f)==str(g)', 'cast-cond/not flt(f)>=1.5',
         'regex-rewrite/?.*a', 'regex-rewrite/list', 'regex-rewrite/i?.*A', 'modifier/str(f) list', 'modifier/not(f) list', 'list-mixed/1,a',
-        'list-mixed/>1,<5', 'list/ab*,*c,id', 'list/abc*,*c,?q', 'list-all/ab*,*c,id', 'list-of/ab*,*c,id|2', 'quant-short/all:nested3', 'quant-short/of2:nested3', 'quant-short/of3:nested3'}
+        'list-mixed/>1,<5', 'list/ab*,*c,id', 'list/abc*,*c,?q', 'list-all/ab*,*c,id', 'list-of/ab*,*c,id|2', 'quant-short/all:nested3', 'quant-short/of2:nested3', 'quant-short/of3:nested3', 'cast-cond/1<int(f)', 'cast-cond/1.5>=flt(f)', 'cast-cond/not 2<=int(f)'}
 
 
 def thin(tpl, quota, rnd):
